@@ -230,6 +230,13 @@ def main(tier, seed):
         parts = ex.split(" ")
         return "fromf64 %s" % parts[2]
     code = E.fold_sweep(ID, code, ev, "f64_grid_sweep", gw, tier, seed, rl)
+    # f32 hard cases: scan ALL 2^31 magnitudes for values whose 18-digit scaling lies within 2^-20 of a rounding tie
+    # (shift-and-mask arithmetic, no library call), check every candidate and its neighbours, both signs, exactly
+    hw = E.run_sweep(binary, ["--sweep-f32-hard", E.NCPU, 20])
+
+    def rl32(ex):
+        return "fromf32 %s" % ex.split(" ")[2]
+    code = E.fold_sweep(ID, code, ev, "f32_near_tie_hard_cases", hw, tier, seed, rl32)
     ev["wall_s"] = round(time.time() - t0, 2)
     E.write_evidence(ID, ev)
     return code
